@@ -205,9 +205,11 @@ def big_shapes(ctx, only=None):
         edges = [(labels[j], labels[i]) for j in range(1, n) for i in par[j]]
         rng.shuffle(edges)
         anc = {0: {0}}
-        for j in range(1, n):
-            anc[j] = {j}.union(*(anc[i] for i in par[j])) if kind != 'chain' else None
-        if kind == 'chain':
+        small = kind != 'chain' and n < 5000
+        if small:
+            for j in range(1, n):
+                anc[j] = {j}.union(*(anc[i] for i in par[j]))
+        if not small:
             # closure along a deep chain without quadratic memory: walk up iteratively
             def up(j):
                 seen, todo = {j}, [j]
